@@ -123,7 +123,7 @@ pub fn gen(ctx: &mut Ctx) {
             } else {
                 let (app, handle) = match ctx.rng.below(5) {
                     0 => (ctx.rng.pick(&apps).clone(), if ctx.rng.bool() { ctx.rng.bytes(16) } else { vec![] }),   // unknown key handle (also the empty one)
-                    1 if apps.len() > 1 => { let (a, h) = ctx.rng.pick(&regs).clone(); (apps.iter().find(|x| **x != a).unwrap().clone(), h) }   // known handle, other application
+                    1 if apps.len() > 1 => { let (a, h) = ctx.rng.pick(&regs).clone(); (apps.iter().find(|x| **x != a).cloned().unwrap_or_else(|| { let mut o = a.clone(); o[0] ^= 0x20; o }), h) }   // known handle, other application
                     _ => ctx.rng.pick(&regs).clone(),
                 };
                 let counter = *ctx.rng.pick(&[0u32, 1, 255, 256, 65536, 1 << 31, u32::MAX, 12345678]);
